@@ -70,8 +70,16 @@ def gen_cases(tier, seed):
         ph = rng.uniform(0, 2 * np.pi)
         a = [float(rng.uniform(-2e3, 2e3)), float(rng.uniform(-2e3, 2e3)), float(z0)]
         b = [a[0] + float(rho * np.cos(ph)), a[1] + float(rho * np.sin(ph)), float(z1)]
+        ints = False
+        if fam in ("uniform", "layered-uniform") and rng.random() < 0.3 and zmin < -20:
+            # endpoints given as whole numbers in Python ints (lists of int): same points, another representation
+            ints = True
+            a = [int(round(a[0])), int(round(a[1])), int(min(-1, max(np.ceil(zmin) + 1, round(a[2]))))]
+            b = [int(round(b[0])), int(round(b[1])), int(min(-1, max(np.ceil(zmin) + 1, round(b[2]))))]
+            if a == b:
+                b[0] += 7
         out.append(dict({"cls": fam, "family": fam, "ice": ice, "from": a, "to": b, "shift": [float(rng.uniform(-1e4, 1e4)), float(rng.uniform(-1e4, 1e4))],
-                         "angle": float(rng.uniform(0, 2 * np.pi))}, **extra))
+                         "angle": float(rng.uniform(0, 2 * np.pi)), "int_endpoints": ints}, **extra))
     return out
 
 
@@ -154,8 +162,15 @@ def run_case(case):
         if fam == "basic":
             # observables of two mechanisms of the numeric tracer, measured on the real ice model / tracer
             geo.update(dz=1.0, z_turn_proximity=float(getattr(make(a, b), "z_turn_proximity", float("nan"))), turn_depth_error=turn_depth_error(ice, a[2], b[2]))
-    d1 = describe(make(a, b))
-    d2 = describe(make(b, a))
+    if case.get("int_endpoints"):
+        # as given and swapped: the integer representation itself (list / tuple / int array); moved: floats
+        rep = [list, tuple, lambda x: np.array(x, dtype=int)][case["idx"] % 3 if "idx" in case else 0]
+        geo["endpoint_type"] = ["list of int", "tuple of int", "int ndarray"][case["idx"] % 3 if "idx" in case else 0]
+        d1 = describe(make(rep(case["from"]), rep(case["to"])))
+        d2 = describe(make(rep(case["to"]), rep(case["from"])))
+    else:
+        d1 = describe(make(a, b))
+        d2 = describe(make(b, a))
     d3 = describe(make(R @ a + sh, R @ b + sh))
     for nm, d in (("as given", d1), ("swapped", d2), ("moved", d3)):
         v.check(d["error"] is None, "tracer reports solutions or none for in-range points (no exception)", execution=nm, error=d["error"], **geo)
